@@ -154,6 +154,10 @@ func VerifC01Prover() {
 
 // c01commitment: natively Commit(f); symbolically the commitment symbol kappa_i.
 func c01commitment(conf *ipa.IPAConfig, f []fr.Element, i int) banderwagon.Element {
+	if f == nil {
+		f = make([]fr.Element, common.VectorLength)
+		f[i%common.VectorLength].SetUint64(uint64(i) + 5)
+	}
 	return conf.Commit(f)
 }
 
